@@ -26,3 +26,15 @@ Proof. exact slide_whole_ticks_alone_unsafe. Qed.
 Lemma simple_breaker_contract_refuted :
   poll 5 (repeat (simple_do false true) 5) = (5, false).
 Proof. exact simple_breaker_disabled_open_runs_every_poll. Qed.
+
+(** Throttle: the recovery half (throttle_recovers in C20.v) fails once the
+    throttle has been disabled: every overflow on a disabled throttle leaks
+    one unit of the pending counter; pendingLimit+1 leaks later nothing waits
+    and every Submit overflows, also after Disable(false). *)
+Lemma disabled_throttle_never_recovers_refuted :
+  let s := fold_left tstep2
+             [TDisable true; TEv TEnter; TEv TEnter; TEv TExit; TDisable false]
+             (fresh_throttle 0 5 false) in
+  ts_waiting s = 0 /\ t_pending (ts_thr s) = 1 /\ enter_admits s = false /\
+  forall n, ts_waiting (fold_left tstep2 (repeat (TEv TEnter) n) s) = 0.
+Proof. exact disabled_throttle_never_recovers_counterexample. Qed.
